@@ -8,7 +8,7 @@ from .. import gen, impl, oracle, ser, stream
 
 ID = "C10"
 LEVEL = "proof"
-PROPS_MODULE = "SymmModel.Props.C10"
+PROPS_MODULE = "SymmModel.Props.C10All"
 THEOREMS = [
     "SymmModel.C10.oddposDag_involutive",
     "SymmModel.C10.Index.conj_conj",
@@ -26,10 +26,23 @@ THEOREMS = [
     "SymmModel.C10.dagger_eq_conj_rev",
     "SymmModel.C10.daggerF_daggerF",
     "SymmModel.C10.daggerF_daggerF_general",
-    "SymmModel.C10.daggerF_daggerF_blocks"
+    "SymmModel.C10.daggerF_daggerF_blocks",
+    "SymmModel.C10.normSq_eq",
+    "SymmModel.C10.normSq'_def",
+    "SymmModel.C10.allAxes_eq",
+    "SymmModel.C10.tensordotF_full",
+    "SymmModel.C10.norm_sector_sign_left",
+    "SymmModel.C10.norm_sector_sign_right",
+    "SymmModel.C10.norm_abelian",
+    "SymmModel.C10.norm_conj",
+    "SymmModel.C10.norm_conj_swapped",
+    "SymmModel.C10.norm_conj_orders_agree",
+    "SymmModel.C10.norm_conj_dual_label",
+    "SymmModel.C10.norm_conj_needs_dual_option",
+    "SymmModel.C10.norm_conj_needs_ket_label"
 ]
-LEAN_FILES = ["SymmModel.Props.C10", "SymmModel.Proofs.LazyLemmas"]
-PLANNED = ["norm_conj (tensordot of conj x with x equals sum |x|^2, both orders, odd and even)", "network form of the norm"]
+LEAN_FILES = ["SymmModel.Props.C10", "SymmModel.Proofs.LazyLemmas", "SymmModel.Props.C10b", "SymmModel.Proofs.NormLemmas"]
+PLANNED = ["network form of the norm (conjugating a 2-3 tensor network tensor by tensor)"]
 RULE = ("random fermionic arrays (all symmetries, every dualness pattern, even/odd charge with labels, pending signs, "
         "real/complex): <x|x> through conj (all-ket or phase_dual) in both operand orders equals the exact integer "
         "sum |x|^2; conj/dagger involutions; dagger == transpose(conj) for both settings of phase_dual; 2-3 tensor "
@@ -246,7 +259,23 @@ def gen_cases(seed, chunk, n, tier):
     return out
 
 
+def probe_known(ctx):
+    """deterministic probe of the recorded finding norm-odd-dual-label (replayed on every run)"""
+    import symmray as sr
+
+    ix = sr.BlockIndex({0: 2, 1: 1})
+    x = sr.Z2FermionicArray(indices=(ix, ix), charge=1, oddpos=7,
+                            blocks={(0, 1): np.array([[1.], [2.]]), (1, 0): np.array([[3., -1.]])})
+    y = x.conj()
+    ctx.evaluations += 1
+    got = scalar_of(sr.tensordot(y.conj(phase_dual=True), y, 2, preserve_array=True))
+    if got != norm2(y):
+        ctx.violation(f"<y|y> = {got} but sum |y|^2 = {norm2(y)} for y = conj(x), x odd",
+                      dict(probe="norm-odd-dual-label", x=ser.enc_array(x)), triggers={"odd_dual_label"}, op="norm")
+
+
 def run(ctx):
+    probe_known(ctx)
     n = 5000 if ctx.tier == "quick" else 40000
     stream.run_stream(ctx, "bra", "harness.props.c10", "gen_cases", n, per_chunk=50,
                       canon_kw=dict(drop_zero=True))
